@@ -1365,3 +1365,184 @@ def literals_right(tree: ast.Module) -> int:
     t.visit(tree)
     ast.fix_missing_locations(tree)
     return t.changed
+
+
+# ------------------------------------------------------------------------------------------------------------------
+# N9: single-use temporaries that the verified baseline does not have are substituted back
+#
+# ``tmp = f(x)`` / ``return g(tmp)`` is ``return g(f(x))`` when ``tmp`` is bound once, read once - in the very next
+# statement, before anything with effects is evaluated there - and nowhere else.  Only names that the same function
+# did not have in the verified baseline (``baseline_functions.json: locals``) are touched, so the package's own locals,
+# which the rules know, stay.
+
+
+_LOCALS: dict[str, list[str]] | None = None
+
+
+def baseline_locals() -> dict[str, list[str]]:
+    global _LOCALS
+    if _LOCALS is None:
+        path = os.path.join(os.path.dirname(os.path.abspath(__file__)), "baseline_functions.json")
+        try:
+            with open(path, encoding="utf-8") as f:
+                _LOCALS = dict(json.load(f).get("locals", {}))
+        except OSError:
+            _LOCALS = {}
+    return _LOCALS
+
+
+def function_locals(fn: ast.FunctionDef) -> set[str]:
+    out = {a.arg for a in fn.args.posonlyargs + fn.args.args + fn.args.kwonlyargs}
+    if fn.args.vararg:
+        out.add(fn.args.vararg.arg)
+    if fn.args.kwarg:
+        out.add(fn.args.kwarg.arg)
+    for n in ast.walk(fn):
+        if isinstance(n, ast.Name) and isinstance(n.ctx, ast.Store):
+            out.add(n.id)
+        elif isinstance(n, (ast.MatchAs, ast.MatchStar)) and n.name:
+            out.add(n.name)
+        elif isinstance(n, ast.MatchMapping) and n.rest:
+            out.add(n.rest)
+    return out
+
+
+def _first_use_is_safe(stmt: ast.stmt, name: str) -> bool:
+    """`name` is read exactly once in `stmt`, unconditionally, and everything evaluated before that read is pure."""
+    if not isinstance(stmt, (ast.Return, ast.Assign, ast.AnnAssign, ast.Expr, ast.AugAssign)):
+        return False
+    value = stmt.value
+    if value is None:
+        return False
+    reads = [n for n in ast.walk(stmt) if isinstance(n, ast.Name) and n.id == name]
+    if len(reads) != 1 or not isinstance(reads[0].ctx, ast.Load):
+        return False
+    if isinstance(stmt, ast.AugAssign):
+        return False
+
+    def walk(e: ast.expr) -> bool | None:
+        """True: found with a pure prefix; False: something impure came first / conditional position; None: not here."""
+        if isinstance(e, ast.Name):
+            return True if e.id == name else None
+        if isinstance(e, (ast.Constant,)):
+            return None
+        kids: list[ast.expr]
+        if isinstance(e, ast.Call):
+            kids = [e.func] + [a.value if isinstance(a, ast.Starred) else a for a in e.args] + [k.value for k in e.keywords]
+        elif isinstance(e, ast.Attribute):
+            kids = [e.value]
+        elif isinstance(e, ast.Subscript):
+            kids = [e.value, e.slice]
+        elif isinstance(e, ast.BinOp):
+            kids = [e.left, e.right]
+        elif isinstance(e, ast.UnaryOp):
+            kids = [e.operand]
+        elif isinstance(e, ast.Compare):
+            kids = [e.left] + list(e.comparators[:1])
+        elif isinstance(e, (ast.Tuple, ast.List, ast.Set)):
+            kids = [x.value if isinstance(x, ast.Starred) else x for x in e.elts]
+        elif isinstance(e, ast.BoolOp):
+            kids = [e.values[0]]
+        elif isinstance(e, ast.IfExp):
+            kids = [e.test]
+        elif isinstance(e, ast.Slice):
+            kids = [x for x in (e.lower, e.upper, e.step) if x is not None]
+        elif isinstance(e, ast.JoinedStr):
+            return False if any(isinstance(n, ast.Name) and n.id == name for n in ast.walk(e)) else None
+        else:
+            return False if any(isinstance(n, ast.Name) and n.id == name for n in ast.walk(e)) else None
+        for k in kids:
+            r = walk(k)
+            if r is not None:
+                return r
+            if not _pure_arg(k):
+                # an impure sibling is evaluated before what follows
+                return False if any(isinstance(n, ast.Name) and n.id == name for kk in kids[kids.index(k) + 1 :] for n in ast.walk(kk)) else None
+        # the name may be in a part of `e` that is evaluated conditionally / later (other BoolOp operands, IfExp arms)
+        return False if any(isinstance(n, ast.Name) and n.id == name for n in ast.walk(e)) else None
+
+    return walk(value) is True
+
+
+class _InlineNewTemps:
+    def __init__(self, keep: set[str]):
+        self.keep = keep
+        self.changed = 0
+
+    def run(self, fn: ast.FunctionDef) -> None:
+        stores: dict[str, int] = {}
+        loads: dict[str, int] = {}
+        for n in ast.walk(fn):
+            if isinstance(n, ast.Name):
+                d = stores if isinstance(n.ctx, ast.Store) else loads
+                d[n.id] = d.get(n.id, 0) + 1
+            elif isinstance(n, (ast.MatchAs, ast.MatchStar)) and n.name:
+                stores[n.name] = stores.get(n.name, 0) + 1
+        self.cands = {nm for nm, c in stores.items() if c == 1 and loads.get(nm, 0) == 1 and nm not in self.keep}
+        if self.cands:
+            self._walk(fn)
+
+    def _block(self, stmts: list[ast.stmt]) -> list[ast.stmt]:
+        out: list[ast.stmt] = []
+        i = 0
+        while i < len(stmts):
+            s = stmts[i]
+            nm = None
+            if isinstance(s, ast.Assign) and len(s.targets) == 1 and isinstance(s.targets[0], ast.Name):
+                nm = s.targets[0].id
+            elif isinstance(s, ast.AnnAssign) and isinstance(s.target, ast.Name) and s.value is not None:
+                nm = s.target.id
+            if nm in self.cands and i + 1 < len(stmts) and not any(isinstance(n, (ast.Lambda, ast.ListComp, ast.SetComp, ast.DictComp, ast.GeneratorExp)) for n in ast.walk(stmts[i + 1])) and _first_use_is_safe(stmts[i + 1], nm):
+                nxt = stmts[i + 1]
+                stmts[i + 1] = _Subst({nm: s.value}).visit(nxt)
+                self.changed += 1
+                i += 1
+                continue
+            out.append(s)
+            i += 1
+        return out
+
+    def _walk(self, node) -> None:
+        for field in ("body", "orelse", "finalbody"):
+            v = getattr(node, field, None)
+            if isinstance(v, list) and v and isinstance(v[0], ast.stmt):
+                for x in v:
+                    if not isinstance(x, (ast.FunctionDef, ast.ClassDef)):
+                        self._walk(x)
+                setattr(node, field, self._block(v))
+        if isinstance(node, ast.Match):
+            for c in node.cases:
+                for x in c.body:
+                    self._walk(x)
+                c.body = self._block(c.body)
+
+
+def inline_new_temps(rel: str, tree: ast.Module) -> int:
+    base = baseline_locals()
+    if not base:
+        return 0
+    total = 0
+
+    def handle(fn: ast.FunctionDef, qual: str):
+        nonlocal total
+        keep = base.get(f"{rel}::{qual}")
+        if keep is None:
+            return
+        t = _InlineNewTemps(set(keep))
+        for _ in range(4):
+            before = t.changed
+            t.run(fn)
+            if t.changed == before:
+                break
+        total += t.changed
+
+    for node in tree.body:
+        if isinstance(node, ast.FunctionDef):
+            handle(node, node.name)
+        elif isinstance(node, ast.ClassDef):
+            for s in node.body:
+                if isinstance(s, ast.FunctionDef):
+                    handle(s, f"{node.name}.{s.name}")
+    if total:
+        ast.fix_missing_locations(tree)
+    return total
